@@ -97,7 +97,13 @@ impl Scenario for MclmcScenario {
                 MathEvent::Esh { grad, mom_in, step, mom_out, ret, .. } => {
                     n_esh += 1;
                     let gn = norm(grad);
-                    let inputs_ok = gn.is_finite() && gn > 0.0 && mom_in.iter().all(|x| x.is_finite()) && step.is_finite();
+                    // a momentum that enters an update is the result of an accepted step or of a refresh: it is
+                    // never NaN / inf (a step that produced one is a divergence and its state is discarded)
+                    if mom_in.iter().any(|x| !x.is_finite()) {
+                        out.violate(format!("C18/momentum_not_finite_before_esh/{pname}"), format!("an ESH update was entered with momentum {:?}", mom_in.iter().take(6).collect::<Vec<_>>()));
+                        return out;
+                    }
+                    let inputs_ok = gn.is_finite() && gn > 0.0 && step.is_finite();
                     if !inputs_ok {
                         out.probe("esh_with_degenerate_inputs_skipped", 1);
                         continue;
